@@ -138,7 +138,9 @@ def r8_work(ctx: Ctx, rid: str = "C20.R8") -> None:
                                "comprehension whose innermost (per-object) level is unfiltered", text=f"{ci.name}.list_files")
                 for a in apps:
                     inner = [fr.node for fr in a.frames if fr.kind == "loop"][-1]
-                    lp = next(n for n in g.nodes if n.kind == "loop" and n.ast is inner)
+                    lp = next((n for n in g.nodes if n.kind == "loop" and n.ast is inner), None)
+                    if lp is None:
+                        raise AnalysisError("loop node of a listing append not found in the CFG")
                     body = edge_target(g, lp, "true")
                     w = find_path(g, body, [lp.id], avoid=[a.id], labels=NORMAL) if body is not None and body != a.id else None
                     lst = dotted(a.ast.func.value)  # type: ignore[union-attr]
@@ -223,9 +225,11 @@ def r9_key_roundtrip(ctx: Ctx, rid: str = "C20.R9") -> None:
 
             for a in apps:
                 inner = [fr.node for fr in a.frames if fr.kind == "loop"][-1]
-                lp = next(n for n in fg.nodes if n.kind == "loop" and n.ast is inner)
+                lp = next((n for n in fg.nodes if n.kind == "loop" and n.ast is inner), None)
+                if lp is None or not isinstance(lp.ast, ast.For):
+                    continue  # a `while` loop over pages: not the per-object loop
                 body = edge_target(fg, lp, "true")
-                tgt = lp.ast.target  # type: ignore[union-attr]
+                tgt = lp.ast.target
                 if body is None or not isinstance(tgt, ast.Name) or not _is_result(dotted(a.ast.func.value)):  # type: ignore[union-attr]
                     continue
                 # the loop variable is the listed object: obj["Key"] is the key under study
